@@ -1,7 +1,211 @@
 package main
 
-func thoroughImpl(repo, verif string, prop *Property, res *RunResult, known KnownFile) map[string]any {
-	return map[string]any{}
+import (
+	"encoding/json"
+	"fmt"
+	"os"
+	"os/exec"
+	"path/filepath"
+	"runtime"
+	"sort"
+	"strings"
+	"sync"
+)
+
+type mutantResult struct {
+	ID     string   `json:"id"`
+	Status string   `json:"status"` // killed | missed | invalid | skipped
+	Expect string   `json:"expect"`
+	Rules  []string `json:"rules,omitempty"`
+	Detail string   `json:"detail,omitempty"`
 }
 
-func runMutantChildImpl(repo, verif, spec string) int { return 0 }
+// runMutantChildImpl applies one mutation operator in memory (overlay), runs
+// the property's rules on the mutated program and reports what fired.
+func runMutantChildImpl(repo, verif, id string) int {
+	var m *mutant
+	for i := range mutants {
+		if mutants[i].ID == id {
+			m = &mutants[i]
+		}
+	}
+	out := mutantResult{ID: id}
+	emit := func() int {
+		b, _ := json.Marshal(out)
+		fmt.Println(string(b))
+		return 0
+	}
+	if m == nil {
+		out.Status = "invalid"
+		out.Detail = "unknown mutant"
+		return emit()
+	}
+	out.Expect = m.Expect
+	path := filepath.Join(repo, m.File)
+	src, err := os.ReadFile(path)
+	if err != nil {
+		out.Status = "skipped"
+		out.Detail = "file not found"
+		return emit()
+	}
+	if strings.Count(string(src), m.Old) < 1 {
+		out.Status = "skipped"
+		out.Detail = "anchor text not present in the current tree"
+		return emit()
+	}
+	mutated := strings.Replace(string(src), m.Old, m.New, 1)
+	// keep the file compiling when the mutation removes the last use of an import
+	P, err := loadSafe(LoadOptions{Repo: repo, Overlay: map[string][]byte{path: []byte(mutated)}})
+	if err != nil {
+		out.Status = "invalid"
+		out.Detail = err.Error()
+		return emit()
+	}
+	prop := registry[m.Prop]()
+	res := runProperty(P, prop, KnownFile{})
+	seen := map[string]bool{}
+	for _, v := range res.Violations {
+		if !seen[v.Rule] {
+			seen[v.Rule] = true
+			out.Rules = append(out.Rules, v.Rule)
+		}
+	}
+	sort.Strings(out.Rules)
+	out.Status = "missed"
+	for _, r := range out.Rules {
+		if strings.HasPrefix(r, m.Expect) {
+			out.Status = "killed"
+		}
+	}
+	if out.Status == "missed" && len(res.Broken) > 0 {
+		out.Detail = "rule reported the mutated tree as unanalysable: " + strings.Join(res.Broken, "; ")
+	}
+	return emit()
+}
+
+func thoroughImpl(repo, verif string, prop *Property, res *RunResult, known KnownFile) map[string]any {
+	extra := map[string]any{}
+	baseKeys := map[string]bool{}
+	for _, o := range res.Obs {
+		if o.Verdict == Violation {
+			baseKeys[o.Key] = true
+		}
+	}
+	// (a) the same rules on the test build, with the reserved tag, and for another architecture
+	type variant struct {
+		name string
+		opt  LoadOptions
+	}
+	variants := []variant{
+		{"tests", LoadOptions{Repo: repo, Tests: true}},
+		{"tag-verif", LoadOptions{Repo: repo, Tags: "verif"}},
+		{"GOARCH=386", LoadOptions{Repo: repo, GOARCH: "386"}},
+	}
+	var vres []map[string]any
+	for _, v := range variants {
+		P, err := loadSafe(v.opt)
+		if err != nil {
+			res.Broken = append(res.Broken, "variant "+v.name+": "+err.Error())
+			continue
+		}
+		r := runProperty(P, registry[prop.ID](), known)
+		nObl := 0
+		for _, rr := range r.Rules {
+			nObl += rr.Obligations
+		}
+		newV := 0
+		for _, o := range r.Violations {
+			if !baseKeys[o.Key] {
+				newV++
+				o.Reason = "[" + v.name + " build] " + o.Reason
+				res.Violations = append(res.Violations, o)
+			}
+		}
+		for _, b := range r.Broken {
+			res.Broken = append(res.Broken, "variant "+v.name+": "+b)
+		}
+		vres = append(vres, map[string]any{"variant": v.name, "obligations": nObl, "violations": len(r.Violations), "new_violations": newV, "functions": len(P.Funcs)})
+		P = nil
+		runtime.GC()
+	}
+	extra["variants"] = vres
+	// (b) CHA cross-check: the coarser call graph may only add reports
+	if P, err := loadSafe(LoadOptions{Repo: repo}); err == nil {
+		P.useCHA = true
+		r := runProperty(P, registry[prop.ID](), known)
+		chaKeys := map[string]bool{}
+		for _, o := range r.Obs {
+			if o.Verdict == Violation {
+				chaKeys[o.Key] = true
+			}
+		}
+		var chaOnly, vtaOnly []string
+		for k := range chaKeys {
+			if !baseKeys[k] {
+				chaOnly = append(chaOnly, k)
+			}
+		}
+		for k := range baseKeys {
+			if !chaKeys[k] {
+				vtaOnly = append(vtaOnly, k)
+			}
+		}
+		sort.Strings(chaOnly)
+		sort.Strings(vtaOnly)
+		extra["cha_crosscheck"] = map[string]any{"cha_only_reports": chaOnly, "vta_only_reports": vtaOnly,
+			"note": "CHA over-approximates interface calls; CHA-only reports are listed, not failed"}
+	}
+	// (c) rule self-test by mutation
+	var mine []mutant
+	for _, m := range mutants {
+		if m.Prop == prop.ID {
+			mine = append(mine, m)
+		}
+	}
+	results := make([]mutantResult, len(mine))
+	exe, _ := os.Executable()
+	workers := runtime.NumCPU() / 2
+	if workers < 1 {
+		workers = 1
+	}
+	if workers > 8 {
+		workers = 8
+	}
+	sem := make(chan struct{}, workers)
+	var wg sync.WaitGroup
+	for i, m := range mine {
+		wg.Add(1)
+		go func(i int, m mutant) {
+			defer wg.Done()
+			sem <- struct{}{}
+			defer func() { <-sem }()
+			cmd := exec.Command(exe, "-mutant", m.ID, "-repo", repo, "-verif", verif)
+			out, err := cmd.Output()
+			r := mutantResult{ID: m.ID, Expect: m.Expect, Status: "invalid", Detail: "child failed"}
+			if err == nil {
+				lines := strings.Split(strings.TrimSpace(string(out)), "\n")
+				_ = json.Unmarshal([]byte(lines[len(lines)-1]), &r)
+			} else {
+				r.Detail = "child failed: " + err.Error()
+			}
+			results[i] = r
+		}(i, m)
+	}
+	wg.Wait()
+	counts := map[string]int{}
+	for _, r := range results {
+		counts[r.Status]++
+		switch r.Status {
+		case "missed":
+			res.Broken = append(res.Broken, fmt.Sprintf("self-test: mutant %s (expected %s) was not reported; rules fired: %v %s", r.ID, r.Expect, r.Rules, r.Detail))
+		case "invalid":
+			res.Broken = append(res.Broken, fmt.Sprintf("self-test: mutant %s does not type-check or could not be run: %s", r.ID, r.Detail))
+		}
+	}
+	extra["mutation_selftest"] = map[string]any{
+		"operators": len(mine), "killed": counts["killed"], "missed": counts["missed"],
+		"skipped": counts["skipped"], "invalid": counts["invalid"], "results": results,
+		"method": "each operator rewrites one site of the current tree in memory (go/packages overlay), the mutant must type-check, and the expected rule must report it; the program is never executed",
+	}
+	return extra
+}
